@@ -213,7 +213,12 @@ def scen_compare(env, cfg):
     lib = env.lib
     ES = lib.typing.electrical_signal
     n, dt, noise, tk, op = cfg['n'], cfg['dtype'], cfg['noise'], cfg['thr'], cfg['op']
-    mk = (lambda nm: env.cplxs(nm, n, -4, 4)) if dt == 'complex' else (lambda nm: env.reals(nm, n, -4, 4))
+    if dt == 'complex':
+        mk = lambda nm: env.cplxs(nm, n, -4, 4)
+    elif dt == 'int':
+        mk = lambda nm: [env.int(f'{nm}[{i}]', -4, 4) for i in range(n)]      # integer-dtype container, real thresholds
+    else:
+        mk = lambda nm: env.reals(nm, n, -4, 4)
     s = mk('s')
     nz = mk('w') if noise else None
     x = ES(list(s), list(nz) if noise else None)
@@ -237,7 +242,7 @@ def scen_compare(env, cfg):
     for v, z, th in zip(env.items(r.data), tot, tl):
         conds.append(env.Iff(v == 1, cmpf(env.abs2(z), th * th)))
     env.check('result equals |signal+noise| compared with |threshold| element-wise', env.And(conds))
-    if dt == 'real':
+    if dt in ('real', 'int'):
         nonneg = env.And([z >= 0 for z in tot] + [th >= 0 for th in tl])
         conds = [env.Iff(v == 1, cmpf(z, th)) for v, z, th in zip(env.items(r.data), tot, tl)]
         env.check('for non-negative signal+noise and threshold it is the plain comparison', env.Implies(nonneg, env.And(conds)))
@@ -297,5 +302,9 @@ def configs(tier):
                     n = 2 if (q or dt == 'complex') else 3
                     out.append((f'cmp-{dt}-{"noise" if noise else "clean"}-{tk}-{op}', scen_compare,
                                 dict(n=n, dtype=dt, noise=noise, thr=tk, op=op), {}))
+    for noise in (False, True):
+        for tk in ('scalar', 'list'):
+            for op in ('gt', 'lt'):
+                out.append((f'cmp-int-{"noise" if noise else "clean"}-{tk}-{op}', scen_compare, dict(n=2, dtype='int', noise=noise, thr=tk, op=op), {}))
     out.append(('cmp-length-mismatch', scen_compare_len, {}, {}))
     return out
